@@ -86,6 +86,32 @@ pub fn gen(rng: &mut Rng, kind: &str, size: &str, profile: &str) -> Scenario {
             let n = 190 + rng.below(120) as u32;
             return gen_stale_n(rng, kind, n);
         }
+        "frontchurn" => return gen_frontchurn(rng, kind, size),
+        "hugehint" => {
+            // an honest upstream that holds more than usize::MAX items (virtual ones that are "not ready yet" follow the
+            // scripted ones): its upper bound is None until the count fits, then exact (children.rs, hint "huge")
+            let mut sc = gen_adapter(rng, kind, size);
+            sc.up.retain(|u| u.resp != "E");
+            sc.hint = "huge".into();
+            sc.tail = ["quietonly", "drop", "none"][rng.below(3) as usize].into();
+            return sc;
+        }
+        "bigcap" => {
+            // concurrency limits far above the sizes of the other profiles (n = 1025 ...): every item pulled stays pending
+            let n = [1025u32, 1100, 1500, 2049][rng.below(4) as usize];
+            let extra = 1 + rng.below(8) as u32;
+            let mut sc = Scenario { kind: kind.into(), cap: n as usize, ..Default::default() };
+            for c in 1..=(n + extra) {
+                sc.up.push(UpStep { resp: "I".into(), c });
+                sc.scripts.insert(c, vec![Step { acts: vec![], resp: "P".into() }, Step { acts: vec![], resp: "R".into() }]);
+            }
+            sc.up.push(UpStep { resp: "E".into(), c: 0 });
+            sc.hint = "exact".into();
+            sc.ops.push(Op::Poll { w: 1 });
+            sc.ops.push(Op::Poll { w: 1 });
+            sc.tail = if rng.pct(50) { "drop" } else { "drain" }.into();
+            return sc;
+        }
         "panic" | "dpanic" => {
             // a mixed scenario in which one child panics in a poll ("panic") or one child's destructor panics ("dpanic")
             let mut sc = gen(rng, kind, size, "mix");
@@ -96,7 +122,7 @@ pub fn gen(rng: &mut Rng, kind: &str, size: &str, profile: &str) -> Scenario {
                     let st = sc.scripts.get_mut(&c).unwrap();
                     let pos = rng.below(st.len() as u64 + 1) as usize;
                     st.insert(pos, Step { acts: vec![], resp: "!".into() });
-                } else {
+                } else if sc.ctor != "plain" {
                     sc.drop_panic.push(c);
                 }
             }
@@ -279,6 +305,10 @@ fn gen_join(rng: &mut Rng, kind: &str, size: &str) -> Scenario {
         sc.ctor = "from_iter_lazy".into();
     }
     let n = if real { rng.below(120) as u32 } else { rng.below(6) as u32 };
+    if n % 4 == 3 {
+        // children without drop glue (the join cannot be observed dropping them; see children.rs)
+        sc.ctor = "plain".into();
+    }
     for c in 1..=n {
         sc.init.push(c);
         let mut s = child_script(rng, kind, c, n, 20);
@@ -395,6 +425,40 @@ pub fn gen_churn(rng: &mut Rng, kind: &str, _size: &str) -> Scenario {
 }
 
 /// C18: long fill / drain / refill oscillations with waker clone and drop storms
+/// ordered kinds: a head that stays pending, a backlog of outputs parked behind it, and many rounds of
+/// `push_front(ready)`; poll - every round takes the front position below its base and back (two re-basings of the
+/// position counters with a non-empty backlog and futures in flight), the population never exceeds its first peak
+fn gen_frontchurn(rng: &mut Rng, kind: &str, size: &str) -> Scenario {
+    let real = size == "real";
+    let mut sc = Scenario { kind: kind.into(), ..Default::default() };
+    let bounded = kind == "fob";
+    let nback: u32 = if real { 2 + rng.below(40) as u32 } else { 1 + rng.below(4) as u32 };
+    let rounds: u32 = if real { 30 + rng.below(90) as u32 } else { 2 + rng.below(6) as u32 };
+    sc.ctor = if bounded { "with_capacity" } else if rng.pct(50) { "new" } else { "with_capacity" }.into();
+    sc.cap = if bounded { (nback + 2) as usize } else { 1 + rng.below(4) as usize };
+    sc.start = ordered_start(rng);
+    let mut next = 1u32;
+    // the head of line and a few more that never complete before the drain; the others complete at their first poll
+    for i in 0..nback {
+        let stuck = i == 0 || rng.pct(30);
+        sc.scripts.insert(next, if stuck { vec![] } else { vec![Step { acts: vec![], resp: "R".into() }] });
+        sc.ops.push(Op::Push { c: next, front: false, r#try: false });
+        next += 1;
+    }
+    sc.ops.push(Op::Poll { w: 1 });
+    for _ in 0..rounds {
+        sc.scripts.insert(next, vec![Step { acts: vec![], resp: "R".into() }]);
+        sc.ops.push(Op::Push { c: next, front: true, r#try: bounded && rng.pct(50) });
+        next += 1;
+        sc.ops.push(Op::Poll { w: 1 });
+        if rng.pct(20) {
+            sc.ops.push(Op::Poll { w: 1 });
+        }
+    }
+    sc.tail = tail(rng);
+    sc
+}
+
 fn gen_oscillate(rng: &mut Rng, kind: &str, size: &str) -> Scenario {
     let real = size == "real";
     let mut sc = Scenario { kind: kind.into(), ..Default::default() };
